@@ -738,7 +738,8 @@ META = {
     "text": "Clause-only: decides that state-side and operator-side swaps are paired and parameterised alike, that the operator swap updates all "
             "dependent fields, that the JW remapping understands the ab-initio model's symbols, and that both integral tensors feed both "
             "term layouts. The Jordan-Wigner sign algebra and spectrum invariance are not decided."
-            " The Jordan-Wigner sign exponent is evaluated over its whole finite input space; simplify_op's normal ordering is compared with exact 2x2 matrix products for every word up to length 5; the state side of a swap applies sign, labels, decomposition results and a fresh model together, the sign before the decomposition.",
+            " The Jordan-Wigner sign exponent is evaluated over its whole finite input space; simplify_op's normal ordering is compared with exact 2x2 matrix products for every word up to length 5; the state side of a swap applies sign, labels, decomposition results and a fresh model together, the sign before the decomposition."
+            " The one-term short cut of the operator builder hands out bond operators that expand to coefficient x term (what swap_site later rebuilds the operator from).",
     "note": "Callers of _update_mps are a closed table; a new caller stops the analysis until classified.",
     "design_ref": "DESIGN.md 3.7, 4 (C17); as built: 9.1, 9.3, 9.8",
 }
